@@ -38,3 +38,10 @@ Lemma exit_data_hits_other_tunnel :
   let '(b, _, _, got) := bstep (brun (book_init 3) [BOpen 1 1; BOpen 2 1]) (BData 1 1 0 77) in
   got = [] /\ bclosed b = [1].
 Proof. vm_compute. split; reflexivity. Qed.
+
+Lemma exit_collision :
+  (let '(b, _, w, _) := bstep (brun (book_init 3) [BOpen 1 1; BOpen 2 1]) (BClose 1 1) in
+   bclosed b = [1] /\ w = [(1, 1)] /\ loops b = [0]) /\
+  (let '(b, _, _, got) := bstep (brun (book_init 3) [BOpen 1 1; BOpen 2 1]) (BData 1 1 0 77) in
+   got = [] /\ bclosed b = [1]).
+Proof. split; [exact exit_close_hits_other_tunnel | exact exit_data_hits_other_tunnel]. Qed.
